@@ -927,4 +927,99 @@ theorem interLoop_spec {σ : Type} {cb : σ → Nat → Nat → σ × Nat} {R : 
       obtain ⟨j1, j2, j3⟩ := hs2 hnret'
       exact hcont l1.loadBlock _ _ _ hl2r hl2 j3 j2 j1 h
 
+/-! ### block_wand_intersection -/
+
+theorem insertByCost_perm (x : S) (l : List S) : insertByCost x l ~ x :: l := by
+  induction l with
+  | nil => simp [insertByCost]
+  | cons y ys ih =>
+    unfold insertByCost
+    split
+    · exact Perm.refl _
+    · exact (Perm.cons y ih).trans (Perm.swap x y ys)
+
+theorem sortByCost_perm (l : List S) : sortByCost l ~ l := by
+  induction l with
+  | nil => simp [sortByCost]
+  | cons x xs ih =>
+    have : sortByCost (x :: xs) = insertByCost x (sortByCost xs) := rfl
+    rw [this]
+    exact (insertByCost_perm x _).trans (Perm.cons x ih)
+
+theorem interTotal_perm {a b : List S} (h : a ~ b) (d : Nat) :
+    interTotal (posts a) d = interTotal (posts b) d := by
+  unfold interTotal
+  have hall : (posts a).all (containsDoc · d) = (posts b).all (containsDoc · d) := by
+    rw [Bool.eq_iff_iff, all_eq_true, all_eq_true]
+    have hp : posts a ~ posts b := h.map _
+    exact ⟨fun hh p hp' => hh p (hp.mem_iff.mpr hp'), fun hh p hp' => hh p (hp.mem_iff.mp hp')⟩
+  have htot : unionTotal (posts a) d = unionTotal (posts b) d := tot_perm h d
+  rw [hall, htot]
+
+theorem scoreIn_le_maxScore (l : S) (hl : WF l) (e : Nat) : scoreIn l.rest e ≤ l.maxScore := by
+  have := tot_le_sum_max [l] (fun s hs p hp => by
+    simp only [mem_cons, not_mem_nil, or_false] at hs; subst hs; exact hl.ubMax p hp) e
+  rw [tot_cons] at this
+  simpa [tot, posts, unionTotal] using this
+
+/-- `block_wand_intersection` (mirrored): whenever the loop completes, it ended in the state of
+the exhaustive loop over all documents with the conjunction's total score, for every callback
+whose thresholds never decrease — given `UB_max` and `UB_block` for each scorer. -/
+theorem blockWandInter_eq_exhaustive {σ : Type} {cb : σ → Nat → Nat → σ × Nat} {R : σ → Nat → Prop}
+    (hcb : MonoCb cb R) (fuel : Nat) (s : σ) (θ : Nat) (hR : R s θ) (scorers : List S)
+    (hwf : ∀ x, x ∈ scorers → WFI x) (out : σ × Nat)
+    (h : blockWandInter cb fuel (s, θ) scorers = .ok out) :
+    out = exhRange cb (interTotal (posts scorers)) 0 T (s, θ) := by
+  unfold blockWandInter at h
+  split at h
+  · cases h
+  · cases h
+  · rename_i l secs _ hsort
+    have hperm : l :: secs ~ scorers := by rw [← hsort]; exact sortByCost_perm scorers
+    have hfun : interTotal (posts scorers) = itot l secs := by
+      funext d
+      rw [← interTotal_perm hperm d]; rfl
+    have hl : WFI l := hwf l (hperm.subset (by simp))
+    have hsecs : ∀ x, x ∈ secs → WFI x := fun x hx => hwf x (hperm.subset (by simp [hx]))
+    have hgm : ∀ e, itot l secs e ≤ l.maxScore + (secs.map (·.maxScore)).sum := by
+      intro e
+      have h1 := itot_le l secs e
+      have h2 := scoreIn_le_maxScore l hl.wf e
+      have h3 : tot secs e ≤ (secs.map (·.maxScore)).sum := tot_le_sum_max secs (fun x hx => (hsecs x hx).wf.ubMax) e
+      omega
+    have hgeq : Sc.add l.maxScore (secs.foldl (fun a x => Sc.add a x.maxScore) Sc.zero)
+        = l.maxScore + (secs.map (·.maxScore)).sum := by
+      rw [sc_add]
+      congr 1
+      exact sumBy_eq (·.maxScore) secs
+    rw [hfun]
+    dsimp only at h
+    rw [hgeq] at h
+    split at h
+    · -- nothing can beat the initial threshold
+      rename_i hlow
+      simp only [sc_gt, Bool.not_eq_true', decide_eq_false_iff_not, Nat.not_lt] at hlow
+      simp only [Outcome.ok.injEq] at h
+      rw [← h]
+      exact (exhRange_dead (itot l secs) T 0 s θ fun e _ _ => by have := hgm e; omega).symm
+    · have hdoc : l.doc ≤ T := by
+        by_cases hr : l.rest = []
+        · rw [doc_eq_T_of_nil hr]; exact Nat.le_refl _
+        · exact Nat.le_of_lt (doc_lt_T hl.wf.lt hr)
+      have := interLoop_spec hcb _ fuel s θ l secs l.doc out hR hl.wf hsecs (fun e _ => hgm e) h
+      rw [this]
+      have hsplit : T = l.doc + (T - l.doc) := by omega
+      conv => rhs; rw [hsplit, exhRange_split]
+      have hzero : exhRange cb (itot l secs) 0 l.doc (s, θ) = (s, θ) := by
+        apply exhRange_dead
+        intro e _ he
+        rw [itot_zero_of_leader]
+        · exact Nat.zero_le _
+        · rw [containsDoc_false_iff]
+          intro p hp hpe
+          have := doc_le_of_mem hl.wf.asc hp
+          omega
+      rw [hzero]
+      simp
+
 end TantivyModel.BlockWand
